@@ -513,8 +513,11 @@ class RawFileSystem(FileSystem[str]):
     def _resolve_path(self, path: str) -> str:
         """Get the absolute path."""
         abs_path = os.path.abspath(os.path.join(self.path, path))
-        if self.constrain_path and not abs_path.startswith(self.path):
-            raise RootEscapeError(self.path, path)
+        if self.constrain_path and abs_path != self.path:
+            # Compare whole path components: "/root_evil" starts with "/root", but is a sibling.
+            # join() adds the trailing separator, unless the root already ends with one ("/").
+            if not abs_path.startswith(os.path.join(self.path, '')):
+                raise RootEscapeError(self.path, path)
         return abs_path
 
     def walk_folder(self, folder: str = '') -> Iterator[File[Self]]:
